@@ -14,6 +14,8 @@ MonNext == /\ l < Len(Obs[tid]) /\ l' = l + 1 /\ tid' = tid
               /\ roff' = o.roff /\ rcall' = o.rcall /\ results' = o.results /\ readable' = o.readable
               /\ rdead' = o.rdead /\ slog' = o.slog /\ neintr' = o.neintr /\ nops' = o.nops
               /\ act' = Obs[tid][l + 1].act
+(* the pending read() never asks for more than the rest of the current header / message *)
+AsksWhatRemains == Obs[tid][l].state.asked <= Asked
 (* content fidelity, as reported by the harness that compares real bytes *)
 BytesIntact == Obs[tid][l].state.intact
 OutcomesKnown == \A i \in 1..Len(results) :
